@@ -112,13 +112,17 @@ func HarnessC12_Record() {
 	profile, compat, level, lsm1 := vU8(), vU8(), vU8(), vU8()&3
 	var sps, pps []*NALU
 	switch {
-	case vTier() == 1 && vChoice(3) == 0:
-		// count boundaries: 31 SPS / 255 PPS of one byte each
-		sps = make([]*NALU, 31)
+	case vChoice(3) == 0:
+		// count boundaries: quick 17 SPS / 3 PPS, thorough 31 SPS / 255 PPS, one byte each
+		ns, np := 17, 3
+		if vTier() == 1 {
+			ns, np = 31, 255
+		}
+		sps = make([]*NALU, ns)
 		for i := range sps {
 			sps[i] = symNALU(0)
 		}
-		pps = make([]*NALU, 255)
+		pps = make([]*NALU, np)
 		for i := range pps {
 			pps[i] = symNALU(0)
 		}
